@@ -550,7 +550,8 @@ def check_last(history: typing.List[dict], r: EvResult, refs: dict, lay: Layout,
         else:
             text = head + (
                 f"{file_kind} file of {what_file} generated together with {ev['S']} differs from the fresh-process "
-                f"generation of {'its dependency closure' if file_kind == 'type' else 'the same type set'} "
+                f"generation of {'its dependency closure' if file_kind == 'type' and not flagged(ev) else 'the same type set'}"
+                f"{' with the same generate_all() options [' + _flags(ev) + ']' if flagged(ev) else ''} "
                 f"({cause}; attributed to {dim})"
             )
         bag.add(sig, case, text)
@@ -869,7 +870,7 @@ def run(ctx: Ctx) -> int:
                     continue
                 e = dict(b, reuse=reuse)
                 d2_space += 1
-                if ctx.thorough or _core2(a, b) or ctx.in_slice("d2|" + ev_id(a) + ">" + ev_id(e), 32):
+                if ctx.thorough or _core2(a, b) or ctx.in_slice("d2|" + ev_id(a) + ">" + ev_id(e), 48):
                     deep.setdefault("2|" + ev_id(a), ([a], []))[1].append(e)
     d3_space = 0
     if ctx.thorough:
